@@ -2,6 +2,8 @@ import ClipVerif.Proofs.C05
 import ClipVerif.Model.Offset
 import ClipVerif.Proofs.Offset
 import ClipVerif.Proofs.OffsetPlan
+import ClipVerif.Model.OffsetGeom
+import ClipVerif.Proofs.OffsetGeom
 /-
 C05 — polygon offsetting grows/shrinks the region by delta.  The metric claims depend on
 `math.Sin/Cos/Acos/Atan2` and float rounding and are explored by the sampling search with the exact
@@ -102,5 +104,24 @@ theorem offsetPlan_path_dispatch (sd : List Point64 → Bool → List Point64) (
     e = (if cnt = 2 ∧ et = 1 then (if jt = 3 then 4 else 3) else et) := by
   exact Proofs.OffsetPlan.path_dispatch sd area paths delta jt et rev pc cnt e pts h
 
+
+/-! ### The raw offset ring (`Model.OffsetGeom`: getUnitNormal … doSquare, tied bit for bit by
+`models-corr offraw`).  The float values are executed, not reasoned about; what is proved is the shape
+of the output: every input vertex contributes at most three points (the concave branch), one for a
+miter, two for a bevel or a square join, none for a repeated vertex. -/
+
+theorem offsetPoint_emits_at_most_three (c : OffCfg) (path : Array Point64) (normals : Array PointD) (j k : Nat) :
+    (offsetPoint c path normals j k).1.length ≤ 3 :=
+  Proofs.OffsetGeom.offsetPoint_len c path normals j k
+
+theorem join_sizes (c : OffCfg) (path : Array Point64) (normals : Array PointD) (j k : Nat) (cosA : Float) :
+    (doMiter c path normals j k cosA).length = 1 ∧ (doBevel c path normals j k).length = 2 ∧
+    (doSquare c path normals j k).length = 2 :=
+  ⟨Proofs.OffsetGeom.doMiter_len c path normals j k cosA, Proofs.OffsetGeom.doBevel_len c path normals j k,
+   Proofs.OffsetGeom.doSquare_len c path normals j k⟩
+
+theorem offsetPolygon_size (c : OffCfg) (path : Array Point64) :
+    (offsetPolygon c path).length ≤ 3 * path.size :=
+  Proofs.OffsetGeom.offsetPolygon_len c path
 
 end C05
